@@ -95,7 +95,9 @@ def judge(d):
                             nbad=nbad))
         if not mb[zero]:
             out.append(viol(f"C08/zero-frequency:{name}", f"{name}: zero frequency removed"))
-        asym = (mb != mb[negidx]) & has_neg & cmp & cmp[negidx]
+        # round 8: symmetry is asserted on every bin whose negative exists, also on bins lying on a wedge plane (their
+        # membership is rounding noise, their symmetry is not: dot(-k) = -dot(k) exactly)
+        asym = (mb != mb[negidx]) & has_neg
         if asym.any():
             out.append(viol(f"C08/asymmetric:{name}",
                             f"{name}: mask[k] != mask[-k] on {int(asym.sum())} bins (shape={shape})"))
@@ -236,6 +238,12 @@ def grid(tier):
     rots = [{"cls": "identity", "rv": [0.0, 0.0, 0.0]}, {"cls": "generic", "rv": [0.3, -0.5, 0.9]},
             {"cls": "cube", "rv": gen.cube_rotations()[5]}, {"cls": "generic", "rv": [-1.1, 0.4, 0.2]}]
     ranges = [[-60.0, 60.0], [-40.0, 70.0], [-90.0, 30.0]]
+    # round 8: bins lying exactly on a wedge plane (+-45 degrees, equal lengths across the tilt axis, axis-aligned orientations)
+    for shape in ([5, 5, 5], [7, 7, 7], [9, 4, 9], [7, 5, 7], [6, 6, 6], [4, 9, 9]):
+        for t in ([-45.0, 45.0], [-45.0, 30.0], [-60.0, 45.0]):
+            for r in (rots[0], rots[2]):
+                for axis in ("y", "x"):
+                    yield {"shape": shape, "rot": r, "tilt": t, "tilt2": ranges[0], "axis": axis, "seed": 3}
     for n in range(1, 17):
         for ax in range(3):
             for other in (1, 5):
